@@ -84,7 +84,13 @@ FAULT = {
     "rule": '@k.nocontrib == line_number() -> int("x")',
     "nested": "@k.nocontrib == line_number() -> not(mod(1, 0))",
     "plain": "mod(1, subtract(line_number(), @k))",
+    # a top-level component that decides the match itself: the second cell of line k is not a number (O5 only; see _argtop_records)
+    "argtop": "between(#1, 0, 9)",
 }
+
+
+def _argtop_records(k):
+    return [[r[0], "x" if i == k else "1"] for i, r in enumerate(RECS)]
 
 
 def fault_oracle(k, r, c, s, f, pr_, vr, vp, vs, vf):
@@ -98,8 +104,8 @@ def fault_oracle(k, r, c, s, f, pr_, vr, vp, vs, vf):
     return (fired and R, ret, lines, lines, errs, not (fired and F), 1 if (fired and P) else 0)
 
 
-def _run_fault(text, k, policy, config_policy=None):
-    p, pr = fresh(text, RECS, policy=policy, config_policy=config_policy)
+def _run_fault(text, k, policy, config_policy=None, records=None):
+    p, pr = fresh(text, records or RECS, policy=policy, config_policy=config_policy)
     p.variables["k"] = k
     raised = False
     got = []
@@ -213,16 +219,18 @@ def match_oracle(kind, k, r, c, s, f, pr_, vm):
     post="_ == match_oracle(kind, k, r, c, s, f, pr_, vm)",
     bound="as O2, under validation-mode comments containing 'match' (alone, with 'no-raise, stop', with 'no-fail'): the policy flags "
     "and their overrides decide raise/collect/stop/fail/print exactly as before; the offending line still "
-    "matches (for an argument-value error unless the run is stopped on it; whether later components of that line run is not compared). "
+    "matches (for an argument-value error unless the run is stopped on it; whether later components of that line run is not compared); "
+    "kind argtop: the offending function is itself a top-level component that decides the match (a non-numeric cell on line k). "
     "The configuration file held another policy ('raise, collect') when the CsvPath was created: only the policy assigned afterwards counts",
     outside="match-mode semantics of the offending line for argument errors",
     encodes=ENC + ["csvpath/matching/functions/function.py:Function.matches (argument errors handled in place)", "csvpath/matching/functions/args.py:Args.handle_errors_if",
                    "csvpath/matching/productions/expression.py:Expression.matches (match_validation_errors)", "csvpath/modes/validation_mode.py"],
-    tiers={"quick": {"timeout": 900, "K": {"KLO": -1, "KHI": 5}, "shards": product(kind=["pyexc", "argval"], vm=list(MATCH_MODES), pr_=[False], r=[False])},
-           "thorough": {"timeout": 3000, "K": {"KLO": -1, "KHI": 5}, "shards": product(kind=["pyexc", "argval"], vm=list(MATCH_MODES), pr_=[False, True])}},
+    tiers={"quick": {"timeout": 900, "K": {"KLO": -1, "KHI": 5}, "shards": product(kind=["pyexc", "argval", "argtop"], vm=list(MATCH_MODES), pr_=[False], r=[False])},
+           "thorough": {"timeout": 3000, "K": {"KLO": -1, "KHI": 5}, "shards": product(kind=["pyexc", "argval", "argtop"], vm=list(MATCH_MODES), pr_=[False, True])}},
 )
 def fault_match(kind: str, vm: str, k: int, r: bool, c: bool, s: bool, f: bool, pr_: bool) -> Tuple[bool, List[int], List[int], List[int], List[int], bool, int, bool]:
     text = '~ validation-mode: %s ~ $SYM[*][ push("s", line_number()) %s push("t", line_number()) ]' % (vm.replace(",", ", "), FAULT[kind])
     # the configuration file said 'raise, collect' when the CsvPath was created; the policy in force is the one assigned afterwards
-    raised, ret, s_, t_, errs, valid, printed = _run_fault(text, k, policy_of(r, c, s, f, pr_, False), config_policy="raise, collect")
+    raised, ret, s_, t_, errs, valid, printed = _run_fault(text, k, policy_of(r, c, s, f, pr_, False), config_policy="raise, collect",
+                                                           records=_argtop_records(k) if kind == "argtop" else None)
     return (raised, [i for i in ret if i != k], s_, [i for i in t_ if i != k], errs, valid, printed, (k in ret))
